@@ -182,6 +182,10 @@ def observations_c18(scratch, logdir):
     return obs, viols
 
 
+def is_default_check(label):
+    return bool(re.search(r"unwinding assertion|attempt to |overflow|index out of bounds|dereference failure|panicked|assertion failed:", label))
+
+
 def load_known():
     p = os.path.join(VERIF, "known_findings.json")
     if not os.path.exists(p):
@@ -329,7 +333,8 @@ def run_property(prop, tier, jobs, keep):
             r.reason = "unwinding bound too small: " + r.reason
             return
         cmd = kani_cmd(h, prop_feature, tdirs[h.cfg], ["-Z", "concrete-playback", "--concrete-playback=print"])
-        rc, out, wall, to = kani_run.run_cmd(cmd, crate, h.timeout + 300, h.mem, os.path.join(logdir, h.name + "." + h.cfg + ".playback.log"))
+        # trace generation needs more memory than the verdict run
+        rc, out, wall, to = kani_run.run_cmd(cmd, crate, 2 * h.timeout + 300, max(2 * h.mem, 16), os.path.join(logdir, h.name + "." + h.cfg + ".playback.log"))
         pbs = [p for p in kani_run.parse_playback(out) if p["kind"] != "cover"]
         by_label = {}
         for p in pbs:
@@ -347,11 +352,22 @@ def run_property(prop, tier, jobs, keep):
                     known_hits.append(k)
                     log("KNOWN-FINDING: property=%s %s" % (prop, k["what"]))
                 continue
-            if not p:
-                unresolved.append(label + " (no concrete values produced)")
-                continue
             tag = "%d" % (zlib.crc32(label.encode()) % 100000)
-            if h.stubs and not h.twin:
+            if not p:
+                if label.startswith("C") and not is_default_check(label):
+                    # the trace run did not yield values (resource limits): the labelled assertion failure itself is
+                    # deterministic and re-runnable, so it is reported at Kani level
+                    p = {"test_name": "", "body": "", "vals": None}
+                    verdict, rout = "reproduced", "kani-level counterexample (no concrete values from the trace run)"
+                    force_kani = True
+                else:
+                    unresolved.append(label + " (no concrete values produced)")
+                    continue
+            else:
+                force_kani = False
+            if force_kani:
+                pass
+            elif h.stubs and not h.twin:
                 # stubs are not applied by native playback: the counterexample is reproducible only at Kani level
                 verdict, rout = "reproduced", "kani-level counterexample (stubs in force; no native twin)"
             else:
@@ -364,7 +380,7 @@ def run_property(prop, tier, jobs, keep):
                 panic = re.findall(r"panicked at [^\n]*\n[^\n]*", rout)
                 json.dump({"property": prop, "harness": h.fq, "module": h.mod, "cfg": h.cfg, "features": prop_feature, "tier_features": list(TIER_FEATS),
                            "label": label, "test_name": p["test_name"], "test_body": p["body"], "concrete_vals": p["vals"],
-                           "twin": h.twin, "stubs": h.stubs, "replay_level": "kani" if (h.stubs and not h.twin) else "native", "timeout": h.timeout, "mem": h.mem,
+                           "twin": h.twin, "stubs": h.stubs, "replay_level": "kani" if ((h.stubs and not h.twin) or force_kani) else "native", "timeout": h.timeout, "mem": h.mem,
                            "native_panic": panic[:2], "how": "./check --replay " + rp}, open(rp, "w"), indent=1)
                 with tri_lock:
                     violations.append((label, rp))
